@@ -122,6 +122,11 @@ def run(prog, rep, tier):
                                                             "SE": "an element of self attribute", "D": "the default value of", "G": "module-level object", "U": "the array returned by the user's callable"}[kind], name, f.qname, via)
                 if note_only:
                     rep.notes.append("NOTE drf: " + msg)
+                elif kind == "G":
+                    # module-level state (a cache, a registry) is written: results are *able* to depend on earlier calls; whether they do - a memo table
+                    # with a sound key does not - is not decided by the ownership domain
+                    rep.unk(rule, site_where(w.site), msg + ": hidden state between calls, not decided whether results can depend on it")
+                    viol = True
                 else:
                     rep.bad(rule, site_where(w.site), msg)
                     viol = True
@@ -159,7 +164,8 @@ def run(prog, rep, tier):
                 if note_only:
                     rep.notes.append("NOTE drf: %s returns %s" % (f.qname, sorted(map(str, bad))))
                 else:
-                    rep.bad("M4.return", fwhere(f), "the returned object %s %s" % (
+                    only_maybe_g = all(OW.strip_maybe(l)[0] == "G" and l[0].endswith("?") for l in bad)
+                    (rep.unk if only_maybe_g else rep.bad)("M4.return", fwhere(f), "the returned object %s %s" % (
                         "may alias" if all(l[0].endswith("?") for l in bad) else "aliases",
                         ", ".join("%s `%s`" % ({"P": "parameter", "PE": "an element of parameter", "S": "self attribute", "SE": "an element of self attribute",
                                                  "D": "default of", "G": "module-level object"}[OW.strip_maybe(l)[0]], l[1]) for l in sorted(bad, key=str))))
